@@ -87,6 +87,10 @@ fn inputs(ev: Ev, d1: usize, d2: usize) -> Vec<String> {
     // the pumped families (every recursive construct at lengths up to 256 characters: long digit and
     // superscript runs, deep nesting, long chains)
     v.extend(refmodel::families::pumping(ev));
+    // every name in its wrong-arity / wrong-closer / stray-token / juxtaposition contexts and keyword near-misses,
+    // and nested calls with every argument-count / separator / closer slip
+    v.extend(refmodel::families::per_name(ev));
+    v.extend(refmodel::families::nested_slips(ev));
     v
 }
 
